@@ -581,6 +581,11 @@ func Select(a, i *Term) *Term {
 			if nonNegRef[i] || (i.IsInt() && lw.IsInt() && i.Int.Cmp(lw.Int) >= 0) {
 				c = TTrue
 			}
+			if i.IsInt() && i.Int.Sign() >= 0 && !lw.IsInt() {
+				// water marks are symbolic and never above 0 (fresh references are negative): a global's or
+				// a pre-state literal reference is always on the old side
+				c = TTrue
+			}
 			return Ite(c, Select(old, i), Select(fresh, i))
 		case "var":
 			if v := initImageLookup(a, i); v != nil {
